@@ -546,6 +546,8 @@ def run_case(case):
             entries.append(("ODMLReader.from_file(fileobj:fd)", True,
                             lambda: ODMLReader("XML", show_warnings=False).from_file(
                                 os.fdopen(os.open(path, os.O_RDONLY), "rb"))))
+            entries.append(("ODMLReader.from_file(fileobj:rb,defaults)", True,
+                            lambda: ODMLReader("XML").from_file(open(path, "rb"))))
             entries.append(("XMLReader.strict.from_file(fileobj:text)", False,
                             lambda: XMLReader(show_warnings=False).from_file(
                                 open(path, "r", encoding="utf-8"))))
@@ -599,6 +601,26 @@ def run_case(case):
                                "and recorded no warning" % name)
                         labels.append("entry:" + name)
                         break
+            # the same damaged text as another tool would write it - on one line, no indentation:
+            # the lenient reader has as many problems to record (its messages name file, line and
+            # tag, so on one line two problems of one kind read the same)
+            if vio is None and lenient_doc is not None and current and wellformed:
+                try:
+                    compact = etree.tostring(etree.fromstring(
+                        damaged, etree.XMLParser(remove_blank_text=True, remove_comments=True)))
+                except Exception:
+                    compact = None
+                if compact is not None and b"\n" not in compact:
+                    r1 = XMLReader(ignore_errors=True, show_warnings=False)
+                    r2 = XMLReader(ignore_errors=True, show_warnings=False)
+                    o1 = call(lambda: r1.from_string(damaged))
+                    o2 = call(lambda: r2.from_string(compact))
+                    if o1[0] == "doc" and o2[0] == "doc" and len(r1.warnings) != len(r2.warnings):
+                        res.count("labels", "compact-judged")
+                        vio = ("read.lenient-warns", "the lenient reader records %d warnings for the "
+                               "stored text and %d for the same text on one line" %
+                               (len(r1.warnings), len(r2.warnings)))
+                        labels.append("entry:compact")
             # kept parts: a single fault confined to one attribute record, or repeating exactly
             # one complete element
             if vio is None and lenient_doc is not None and len(faults) == 1:
